@@ -57,6 +57,8 @@ type Job struct {
 	MonoCheck bool `json:"mono_check,omitempty"`
 	Laws      int  `json:"laws,omitempty"`
 	LawSeed   int  `json:"law_seed,omitempty"`
+	// KeepFuncOrder: the function work queue keeps the order the analysis uses (block queue and map orders still vary)
+	KeepFuncOrder bool `json:"keep_func_order,omitempty"`
 }
 
 // Out is the result of one job.
